@@ -442,20 +442,117 @@ ERRNO_GROUPS = ("path", "strtonum", "inet", "pton6", "fmt", "reallocarray", "mbs
 ERRNO_VALUES = ("0", "ERANGE", "EINVAL", "EPERM", "ENOMEM")
 
 
-def with_errno(rng, ops):
-    """insert `errno NAME` at the start of every 100-op case and at random places in between"""
-    out = []
-    n = 0
+LAYOUT_GROUPS = ("copy", "bound", "mem", "path", "strtonum", "inet", "pton6", "fnmatch")
+LAYOUTS = ("sep", "sep", "pageend", "pagestart", "unaligned")
+LAYOUTS_COPY = ("sep", "pageend", "pagestart", "unaligned", "srcdst", "dstsrc")
+
+
+def with_context(rng, name, ops, dist):
+    """Cut `ops` into 100-line cases; every case starts with an `errno NAME` line (groups that touch
+    errno) and a `layout NAME` line (groups whose buffers can be placed), and the context is changed
+    again at random places inside the case.  The harness chains errno from call to call.  `dist`
+    collects the distribution for the evidence."""
+    use_e = name in ERRNO_GROUPS
+    use_l = name in LAYOUT_GROUPS
+    lays = LAYOUTS_COPY if name in ("copy", "bound") else LAYOUTS
+    out, cur = [], []
+    lay, err = "sep", "0"
+
+    def ctx():
+        nonlocal lay, err
+        if use_e:
+            err = rng.choice(ERRNO_VALUES)
+            cur.append("errno " + err)
+        if use_l:
+            lay = rng.choice(lays)
+            cur.append("layout " + lay)
+
     for o in ops:
-        if n % 100 == 0 or rng.chance(1, 9):
-            out.append("errno " + rng.choice(ERRNO_VALUES))
-            n += 1
-            if n % 100 == 0:                      # keep the case boundary on an errno line
-                out.append("errno " + rng.choice(ERRNO_VALUES))
-                n += 1
-        out.append(o)
-        n += 1
-    return out
+        if not cur:
+            lay, err = "sep", "0"
+            ctx()
+        elif (use_e or use_l) and len(cur) <= 97 and rng.chance(1, 12):
+            ctx()
+        cur.append(o)
+        f = o.split(" ", 1)[0]
+        if use_l:
+            k = f + ":" + lay
+            dist["layout"][k] = dist["layout"].get(k, 0) + 1
+        if use_e:
+            dist["errno_on_entry_set"][err] = dist["errno_on_entry_set"].get(err, 0) + 1
+        if len(cur) >= 100:
+            out += cur
+            cur = []
+    return out + cur
+
+
+def gen_boundaries(rng, full):
+    """sizes 0/1/len-1/len/len+1/len+2 around word, cache-line and buffer boundaries"""
+    ops = []
+    lens = [0, 1, 2, 3, 7, 8, 9, 15, 16, 17, 31, 32, 33, 63, 64, 65, 127, 128, 129, 255, 256, 257]
+    if full:
+        lens += [511, 512, 513, 1023, 1024, 1025, 4095, 4096, 4097]
+    for L in lens:
+        src = bytes(97 + (i * 5 + L) % 26 for i in range(L))
+        for n in sorted(set(x for x in (0, 1, L - 1, L, L + 1, L + 2) if x >= 0)):
+            for pad in (0, 1):
+                d = b"\xaa" * (n + pad)
+                ops.append("strlcpy %s %s %d" % (H(d), H(src), n))
+                ops.append("strpcpy %s %s %d" % (H(d), H(src), n))
+            # concatenation onto a prefix of length P inside a buffer of n bytes
+            for P in (0, 1, max(0, n - 1), n):
+                if P > n:
+                    continue
+                pre = b"p" * P
+                d = (pre + b"\x00" + b"\xaa" * n)[: max(n, P + 1)] if P < n else pre + b"\xaa"
+                d = d + b"\xaa" * max(0, n - len(d))
+                if n <= len(d):
+                    ops.append("strlcat %s %s %d" % (H(d), H(src), n))
+                    ops.append("strpcat %s %s %d" % (H(d), H(src), n))
+        for n in sorted(set(x for x in (0, 1, L - 1, L) if 0 <= x <= L)):
+            ops.append("mempcpy %s %s %d" % (H(b"\xaa" * n), H(src), n))
+            ops.append("mempcpy %s %s %d" % (H(b"\xaa" * (n + 1)), H(src), n))
+            ops.append("memrchr %s %d %d" % (H(src), src[0] if L else 97, n))
+            ops.append("memrchr %s %d %d" % (H(src), 0, n))
+            ops.append("strnlen %s %d" % (H(src), n))
+        ops.append("strnlen %s %d" % (H(src + b"\x00"), L + 1))
+        ops.append("strnlen %s %d" % (H(src + b"\x00"), L + 2))
+        # needle at the very start / very end / one short of the end / absent; needle = haystack
+        if L >= 2:
+            for q in (src[:1], src[:2], src[-1:], src[-2:], src[1:], src[:-1], src, src + b"z", src[-2:] + b"z"):
+                ops.append("memmem %s %s" % (H(src), H(q)))
+            ops.append("mempbrk %s %s" % (H(src), H(src[-1:] + b"\x00")))
+            ops.append("memspn %s %s" % (H(src), H(bytes(set(src[:-1])))))
+            ops.append("memcspn %s %s" % (H(src), H(src[-1:])))
+        ops.append("strsep %s %s" % (H(src.replace(b"a", b",")), H(b",")))
+        ops.append("basename " + H(src.replace(b"a", b"/") or b"/"))
+        ops.append("dirname " + H(src.replace(b"a", b"/") or b"/"))
+    return ops
+
+
+def n_class(op):
+    """boundary class of the size argument of a copy op"""
+    w = op.split(" ")
+    if w[0] not in ("strlcpy", "strpcpy", "strlcat", "strpcat", "mempcpy") or len(w) != 4:
+        return None
+    try:
+        n = int(w[3])
+        L = 0 if w[2] == "-" else len(w[2]) // 2
+        if w[0] != "mempcpy" and w[2] != "-":
+            L = len(bytes.fromhex(w[2]).split(b"\x00")[0])
+    except ValueError:
+        return None
+    if n == 0:
+        return "n=0"
+    if n == 1:
+        return "n=1"
+    if n < L:
+        return "n<len"
+    if n == L:
+        return "n=len"
+    if n == L + 1:
+        return "n=len+1"
+    return "n>len+1"
 
 
 # ------------------------------------------------------------------ platform differences
@@ -546,8 +643,16 @@ def run(ck):
     # of errno (PRNG-chosen `errno NAME` ops; the harness then chains: what a call leaves behind is
     # the entry errno of the next call, so failing-then-succeeding pairs arise all the time) and
     # its errno-on-exit is part of the observable
-    for name in ERRNO_GROUPS:
-        groups[name] = with_errno(rng, groups[name])
+    groups["bound"] = gen_boundaries(rng, full)
+    dist = {"layout": {}, "errno_on_entry_set": {}, "copy_size_class": {}}
+    for name in list(groups):
+        for o in groups[name]:
+            c = n_class(o)
+            if c:
+                k = o.split(" ", 1)[0] + ":" + c
+                dist["copy_size_class"][k] = dist["copy_size_class"].get(k, 0) + 1
+        groups[name] = with_context(rng, name, groups[name], dist)
+    ck.cov["distribution"] = dist
 
     hist = {}
     total = 0
@@ -612,11 +717,15 @@ def run(ck):
     # platform differences: logged and classified, never judged
     pd = {}
     examples = {}
+    compared = {}
     n = 0
     if os.path.exists(plog):
         for line in open(plog, errors="replace"):
             f = line.rstrip("\n").split("\t")
             if len(f) < 2:
+                continue
+            if f[0] == "#compared":
+                compared[f[1]] = compared.get(f[1], 0) + int(f[2])
                 continue
             n += 1
             c = classify_plat(f[0], f[1], f[2] if len(f) > 2 else "", f[3] if len(f) > 3 else "")
@@ -624,6 +733,7 @@ def run(ck):
             if c not in examples:
                 examples[c] = {"op": f[1][:200], "compat": (f[2] if len(f) > 2 else "")[:80],
                                "glibc": (f[3] if len(f) > 3 else "")[:80]}
+    ck.cov["platform_calls_compared"] = compared
     ck.cov["platform_differences"] = {"total": n, "by_class": pd, "examples": examples,
                                       "note": "compat vs glibc on the same arguments; the judge is the Lean model"}
     if not ck.quick():
